@@ -50,6 +50,10 @@ type interposer struct {
 	kills  []Kill
 	killed []string // what was killed, for the record
 	armed  bool
+	// the machines started so far and not yet killed by us, recorded by ksys.Start: the test
+	// system's own list is behind its mutex, which System.Kill holds while it waits for the
+	// dying server's in-flight handlers - some of which are waiting for this interposer
+	machines []*bigmachine.Machine
 }
 
 func method(path string) string {
@@ -64,11 +68,10 @@ func method(path string) string {
 // httptest.Server.Close blocks until the server's in-flight handlers return,
 // and one of them may be the very caller of this RoundTrip.
 func (ip *interposer) pick(host string, other bool) *bigmachine.Machine {
-	n := ip.sys.N()
-	for i := 0; i < n; i++ {
-		m := ip.sys.Index(i)
+	for i, m := range ip.machines {
 		if strings.Contains(m.Addr, host) != other {
 			ip.killed = append(ip.killed, fmt.Sprintf("%s@%d", map[bool]string{false: "callee", true: "other"}[other], ip.n))
+			ip.machines = append(ip.machines[:i:i], ip.machines[i+1:]...)
 			return m
 		}
 	}
@@ -172,6 +175,15 @@ func (b *killBody) Close() error { return b.inner.Close() }
 type ksys struct {
 	*testsystem.System
 	client *http.Client
+	ip     *interposer
+}
+
+func (k *ksys) Start(ctx context.Context, count int) ([]*bigmachine.Machine, error) {
+	ms, err := k.System.Start(ctx, count)
+	k.ip.mu.Lock()
+	k.ip.machines = append(k.ip.machines, ms...)
+	k.ip.mu.Unlock()
+	return ms, err
 }
 
 func (k *ksys) HTTPClient() *http.Client { return k.client }
@@ -185,7 +197,7 @@ func start(procs int, kills []Kill) (*prog.Sess, *interposer) {
 	sys.KeepaliveTimeout = 400 * time.Millisecond
 	sys.KeepaliveRpcTimeout = 100 * time.Millisecond
 	ip := &interposer{inner: sys.HTTPClient().Transport, sys: sys, kills: kills}
-	ks := &ksys{System: sys, client: &http.Client{Transport: ip}}
+	ks := &ksys{System: sys, client: &http.Client{Transport: ip}, ip: ip}
 	sess := exec.Start(exec.Bigmachine(ks), exec.Parallelism(4))
 	return &prog.Sess{Session: sess, Sys: sys, Cfg: prog.Cfg{Kind: "bigmachine", Parallelism: 4, Procs: procs}}, ip
 }
